@@ -155,6 +155,29 @@ def _options(vc, pv, kind):
     return o
 
 
+def next_page_options(vc, pv, kind):
+    """what a request for a LATER page carries (C18): always a paging state and a page size, optionally bound values, a serial consistency and a client timestamp"""
+    o = {}
+    cl = vc.int('consistency')
+    vc.assume(sym.and_(cl >= 0, cl <= 10))
+    o['consistency'] = cl
+    shape = vc.choice('values', ([None] if kind != 'EXECUTE' else ['empty']) + ['bytes'])
+    o['values'] = None if shape is None else ([] if shape == 'empty' else [B(vc, 'value0_bytes')])
+    if vc.choice('serial_consistency', [False, True]):
+        scl = vc.int('serial_cl')
+        vc.assume(sym.or_(scl == 8, scl == 9))
+        o['serial_consistency'] = scl
+    fs = vc.int('fetch_size')
+    vc.assume(sym.and_(fs >= 1, fs <= 2 ** 31 - 1))
+    o['fetch_size'] = fs
+    o['paging_state'] = B(vc, 'paging_state_bytes', minlen=1)
+    if pv >= 3 and vc.choice('timestamp', [False, True]):
+        ts = vc.int('timestamp_us')
+        vc.assume(cser.in_signed_range(ts, 8))
+        o['timestamp'] = ts
+    return o
+
+
 KS = 'ks_\u00e9'        # a keyspace name whose utf-8 length differs from its character count
 
 
@@ -194,12 +217,12 @@ class _CP(object):
         self.max_pages, self.max_pages_per_second, self.max_queue_size = t
 
 
-def _mk_query_like(kind, pv):
-    @harness('C03', '%s-v%#x' % (kind, pv), functions=[PR + '_QueryMessage._write_query_params', PR + '_QueryMessage._write_paging_options', PR + kind.capitalize() + 'Message.send_body'] +
+def _mk_query_like(kind, pv, prop='C03', opt_fn=None, label=''):
+    @harness(prop, '%s%s-v%#x' % (label, kind, pv), functions=[PR + '_QueryMessage._write_query_params', PR + '_QueryMessage._write_paging_options', PR + kind.capitalize() + 'Message.send_body'] +
              ([PR + 'ExecuteMessage._write_query_params'] if kind == 'EXECUTE' else []), native='contracts.native.c03:replay')
     def h(vc):
         from cassandra import protocol, UnsupportedOperation
-        o = _options(vc, pv, kind)
+        o = (opt_fn or _options)(vc, pv, kind)
         cp = _CP(o['continuous']) if 'continuous' in o else None
         common = dict(consistency_level=o['consistency'], serial_consistency_level=o.get('serial_consistency'), fetch_size=o.get('fetch_size'),
                       paging_state=o.get('paging_state'), timestamp=o.get('timestamp'), continuous_paging_options=cp)
@@ -227,7 +250,7 @@ def _mk_query_like(kind, pv):
             same(vc, 'v1/body-is-query-and-consistency-only', f.content, cat(head, s_short(o['consistency'])))
         else:
             same(vc, 'post/body-is-exactly-the-spec-layout-for-the-requested-options', f.content, cat(head, _spec_query_params(pv, o)))
-            if pv == 4 and kind == 'QUERY':
+            if pv == 4 and kind == 'QUERY' and prop == 'C03':
                 vc.must_fail('selfcheck/flags-are-an-int-on-v4', sym.lift(f.content) == sym.lift(cat(head, _spec_query_params(5, o))))
     h.__doc__ = ('protocol version %#x, every presence combination of values (null / unset / bytes), page size, paging state, serial consistency, client timestamp, '
                  'per-request keyspace, continuous paging, with symbolic field values: ensures the %s body is exactly the spec layout (flags width, bit per option, field order); '
